@@ -404,6 +404,8 @@ def pattern_of(obs, label):
             return "lazy-expand-inplace-on-locked"
         if m == "to_empty" and ok and hk == "params":
             return "params-module-_apply-on-locked"
+        if m == "update" and ok and inplace and lb == "params(lock=True).lock_" and hk == "params":
+            return "params-lock-content-update-inplace-adds-key"
         if m == "__setitem__" and ok and obs.get("rebound_under_lazy") and args and \
                 (isinstance(args[0], list) or (isinstance(args[0], str) and args[0].startswith("tensor(")) or args[0] == "range"):
             return "lazy-setitem-sequence-index-on-locked"
@@ -534,9 +536,10 @@ def _values(c, key=None):
 
 def _tds(c):
     t = T()
-    return [c.twin(), c.twin(extra=True), {c.absent: c.ones(c.bs)}, {c.leaf[0]: c.ones(c.shape_of(c.leaf[0]))},
-            c.twin(drop=True), t["TD"]({}, batch_size=list(c.bs)),
-            ({c.node[0]: {c.absent: c.ones(c.bs)}} if c.node else {c.absent: {"deep": c.ones(c.bs)}})]
+    return [{c.absent: c.ones(c.bs)},
+            ({c.node[0]: {c.absent: c.ones(c.bs)}} if c.node else {c.absent: {"deep": c.ones(c.bs)}}),
+            c.twin(extra=True), c.twin(), {c.leaf[0]: c.ones(c.shape_of(c.leaf[0]))},
+            c.twin(drop=True), t["TD"]({}, batch_size=list(c.bs))]
 
 
 def _fn(c):
